@@ -28,7 +28,7 @@ type refState struct {
 type stepInfo struct {
 	rescaled  bool // the 2*total window was exceeded and priorities were divided
 	leftInt64 bool // some value computed by the specification does not fit an int64
-	grey      bool // total after updates but before removals > cap while the final total <= cap
+	grey      bool // total after updates but before removals > cap while the resulting total <= cap (valid)
 }
 
 var (
@@ -179,10 +179,10 @@ const (
 // refUpdate is `update(changes)` of A.4. cap is the maximum total voting power.
 // Returns the new state, or the rejection class (state unchanged).
 //
-// One deliberate weakening with respect to the text of A.4 (see main.go, assumptions): the text
-// rejects when the total after updates *before removals* exceeds the cap; the property statement
-// only says "totals above the cap". The model rejects when the total of the resulting set exceeds
-// the cap and flags the in-between case as `grey` so that the checker accepts either answer there.
+// Cap rule: removals are applied before the cap check, i.e. a change set is rejected iff the total of
+// the RESULTING set exceeds the cap. (The one-line summary in A.4 says "total after updates (before
+// removals)"; that total, T', only determines the newcomers' starting priority.) `grey` marks the
+// change sets whose T' is above the cap while the resulting total is not - they must be accepted.
 func refUpdate(in refState, changes []change, cap *big.Int, withWindow bool) (refState, string, stepInfo) {
 	// small fixed tables indexed by address index + 1 (the pools have 6 resp. 24 addresses; -1 = foreign address)
 	const slots = 32
